@@ -492,7 +492,67 @@ func c08Soak(c *Ctx, n int) {
 	}
 }
 
+// c08Sparse: configurations in which optional keys are omitted (a listens entry without backends, a
+// service without routes and hosts): every corpus message unmodified, pings addressed to the
+// listener itself and to the service, then a sentinel that is relayed by a Route.
+func c08Sparse(c *Ctx) {
+	cfgs := []RCfg{
+		{Name: "svc.example.com", Listens: []RListen{{Addr: "127.0.0.1", UDP: 5060, TCP: 5062}}},
+		{Name: "svc.example.com", Listens: []RListen{{Addr: "127.0.0.1", UDP: 5060}, {Addr: "127.0.0.2", UDP: 5060, Backends: []string{"udp://127.0.1.1:7000"}}}},
+	}
+	pings := [][]byte{
+		MsgSpec{Method: "OPTIONS", RURI: "sip:127.0.0.1:5060", Vias: []string{"SIP/2.0/UDP 127.0.0.9:5060;branch=z9hG4bKping1"}, From: "<sip:mon@ua.example.net>;tag=m", To: "<sip:127.0.0.1:5060>", CallID: "ping1", CSeq: "1 OPTIONS"}.Build().Render(),
+		MsgSpec{Method: "OPTIONS", RURI: "sip:svc.example.com", Vias: []string{"SIP/2.0/UDP 127.0.0.9:5060;branch=z9hG4bKping2"}, From: "<sip:mon@ua.example.net>;tag=m", To: "<sip:svc.example.com>", CallID: "ping2", CSeq: "1 OPTIONS"}.Build().Render(),
+		MsgSpec{Method: "REGISTER", RURI: "sip:svc.example.com", Vias: []string{"SIP/2.0/UDP 127.0.0.9:5060;branch=z9hG4bKreg"}, From: "<sip:a@svc.example.com>;tag=m", To: "<sip:a@svc.example.com>", CallID: "reg", CSeq: "1 REGISTER"}.Build().Render(),
+	}
+	for ci, cfg := range cfgs {
+		for _, tcp := range []bool{false, true} {
+			if tcp && cfg.Listens[0].TCP == 0 {
+				continue
+			}
+			w := StartRelayWorld(SimOpts{}, cfg)
+			var inputs [][]byte
+			inputs = append(inputs, pings...)
+			for _, m := range c08Corpus() {
+				inputs = append(inputs, m.Render())
+			}
+			for i, in := range inputs {
+				if tcp {
+					w.SendTCP(w.Client(fmt.Sprintf("s%d", i), "127.0.0.9", "127.0.0.1:5062"), in)
+				} else {
+					w.SendUDP("127.0.0.9:5060", "127.0.0.1:5060", in)
+				}
+				w.Observe()
+				c.Res.Executions++
+				if vd := w.S.Verdict(); vd != "" {
+					c.Violate(fmt.Sprintf("crash|sparse-config-%d", ci), "crash", fmt.Sprintf("configuration with omitted optional keys (%s), input %s (%v): %s\n%s", strings.ReplaceAll(ConfigYAML(cfg), "\n", " / "), short(in), map[bool]string{true: "tcp", false: "udp"}[tcp], vd, w.S.CrashDetail()), map[string]int{"sparse": 1})
+					break
+				}
+			}
+			if w.S.Verdict() == "" {
+				sent := MsgSpec{Method: "OPTIONS", RURI: "sip:x@foreign.example.net", Vias: []string{"SIP/2.0/UDP 127.0.0.8:5060;branch=z9hG4bKsps"}, Routes: []string{"<sip:127.0.2.1:5070;lr>"}, From: "<sip:s@ua.example.net>;tag=s", To: "<sip:x@foreign.example.net>", CallID: "sparse-sentinel", CSeq: "1 OPTIONS"}.Build()
+				w.SendUDP("127.0.0.8:5060", "127.0.0.1:5060", sent.Render())
+				ok := false
+				for _, p := range w.Observe().Pkts {
+					if p.To == "127.0.2.1:5070" && bytes.Contains(p.Data, []byte("Call-ID: sparse-sentinel")) {
+						ok = true
+					}
+				}
+				if !ok {
+					c.Violate(fmt.Sprintf("stops-serving|sparse-config-%d", ci), "stops-serving", "configuration with omitted optional keys: after the corpus and the pings a routed sentinel was no longer relayed", map[string]int{"sparse": 1})
+				}
+			}
+			c.Res.Evaluations++
+			c.Res.Nontrivial++
+			w.Close()
+		}
+	}
+}
+
 func c08Run(c *Ctx) {
+	if c.Worker == 5%c.NWorkers && c.Resume == 0 {
+		c08Sparse(c)
+	}
 	if c.Worker == 3%c.NWorkers && c.Resume == 0 {
 		n := 700
 		if c.Thorough() {
@@ -596,7 +656,7 @@ func c08Run(c *Ctx) {
 
 func init() {
 	addCheck(&Check{ID: "C08", Level: "exploration", Journal: true, MemLimit: 6 << 30, StallS: 20,
-		Rule:   "complete enumerations over a 12-message corpus (requests of every path, responses, compact forms), each case on a fresh world with backends, static routes, a learned next hop, on UDP and on TCP (TCP also: after a valid request on the same connection, whose response arrives once the hostile bytes have been handled), followed by a sentinel request: (E1) every prefix (cut at every byte); (E2) every single-byte substitution, insertion (6-byte alphabet on 3 messages; thorough: 20-byte alphabet on all) and deletion at every offset; (E3) every field-level hostile substitution from per-field menus (Content-Length, Via sent-by, ports, missing mandatory headers, From/To/Route/Record-Route URIs, CSeq, Expires, status codes; thorough: every pair); (E4) size extremes up to 64 KiB; (E5) a soak run: one long-lived proxy takes 700 (thorough 5000) hostile TCP connections one after the other, and after every 100 a sentinel over a new TCP connection and over UDP must be relayed; oracle: no panic in any proxy goroutine, no deadlock/stall, bytes allocated while handling the input <= 1 MiB + 256 x input length, the sentinel is relayed afterwards; workers run under an address-space limit with a write-ahead journal so that an unrecoverable runtime abort is attributed to its input; non-trivial = every case",
+		Rule:   "complete enumerations over a 12-message corpus (requests of every path, responses, compact forms), each case on a fresh world with backends, static routes, a learned next hop, on UDP and on TCP (TCP also: after a valid request on the same connection, whose response arrives once the hostile bytes have been handled), followed by a sentinel request: (E1) every prefix (cut at every byte); (E2) every single-byte substitution, insertion (6-byte alphabet on 3 messages; thorough: 20-byte alphabet on all) and deletion at every offset; (E3) every field-level hostile substitution from per-field menus (Content-Length, Via sent-by, ports, missing mandatory headers, From/To/Route/Record-Route URIs, CSeq, Expires, status codes; thorough: every pair); (E4) size extremes up to 64 KiB; (E5) a soak run: one long-lived proxy takes 700 (thorough 5000) hostile TCP connections one after the other, and after every 100 a sentinel over a new TCP connection and over UDP must be relayed; (E6) configurations with omitted optional keys (a listens entry without backends): the corpus, pings addressed to the listener and to the service, a routed sentinel; oracle: no panic in any proxy goroutine, no deadlock/stall, bytes allocated while handling the input <= 1 MiB + 256 x input length, the sentinel is relayed afterwards; workers run under an address-space limit with a write-ahead journal so that an unrecoverable runtime abort is attributed to its input; non-trivial = every case",
 		Assume: []string{"the coverage-guided half of the quantifier (arbitrary byte strings) belongs to another family and is replaced by the bounded exhaustive spaces above", "a peer that black-holes a TCP dial is outside what the simulation can decide"},
 		Run:    c08Run,
 		JournalSig: func(raw json.RawMessage) string {
@@ -606,6 +666,14 @@ func init() {
 		},
 		Replay: func(c *Ctx, raw json.RawMessage) string {
 			var sk map[string]int
+			if json.Unmarshal(raw, &sk) == nil && sk["sparse"] > 0 {
+				cc := &Ctx{ID: "C08x", Res: newResult(), vmap: map[string]*Violation{}, Deadline: c.Deadline, NWorkers: 1}
+				c08Sparse(cc)
+				if len(cc.Res.Violations) > 0 {
+					return cc.Res.Violations[0].Clause
+				}
+				return ""
+			}
 			if json.Unmarshal(raw, &sk) == nil && sk["soak"] > 0 {
 				cc := &Ctx{ID: "C08x", Res: newResult(), vmap: map[string]*Violation{}, Deadline: c.Deadline, NWorkers: 1}
 				c08Soak(cc, sk["soak"])
